@@ -199,7 +199,7 @@ func (p *Prog) VerifyFunc(fi *FuncInfo, spec *FuncSpec) (res *FuncResult) {
 	vc.results = results
 	// trusted axioms are available in every function
 	for _, a := range p.con.Facts {
-		if a.Kind == "axiom" {
+		if a.Kind == "axiom" && (!a.Hidden || hasProp(spec.Uses, a.Name)) {
 			aenv := &SpecEnv{vc: vc, st: st, old: st, vars: map[string]Term{}, pkg: vc.pkg}
 			if pk, ok := p.pkgs[a.Pkg]; ok {
 				aenv.pkg = pk.Types
